@@ -44,6 +44,7 @@ struct obj {
 	void		*p;		/* library struct (malloc'ed) or NULL once freed */
 	unsigned	gen;
 	int		registered;	/* shadow */
+	int		inited;		/* the library's INIT macro has been applied to this struct */
 	int		reaper;
 	int		driver;		/* population driver task */
 	int		burner;		/* task that burns time towards the earliest deadline and re-registers itself this many times */
@@ -90,6 +91,7 @@ static int fd2chan[MAXFDN], fd2side[MAXFDN];	/* OS descriptor -> channel end */
 static struct rng R;
 static uint64_t g_seed;
 static const char *g_focus = "";
+static int task_poll_run;	/* consecutive non-blocking polls made with tasks pending */
 static const char *g_method = "?";
 static int g_is_epoll, g_budget_base = 120;
 
@@ -133,7 +135,7 @@ static struct {
 	uint64_t cases, cb[K_NKIND], waits, fd_entries_checked, wait_entries_checked, timer_entries_checked,
 		 task_entries_checked, unreg_of_due, handler_changes, reinstall_while_ready, tfd_engaged_cases,
 		 multi_timer_iters, failed_reg, quits, reenters, deadline_checks, rk_nonempty, b_obligations,
-		 nt[8], eintr_seen, sig_raised, ev_posts, raw_posts, actions, frees_in_handler, struct_reuse,
+		 nt[8], eintr_seen, sig_raised, ev_posts, raw_posts, actions, frees_in_handler, struct_reuse, timer_rereg_without_init,
 		 hyg_checks, stim_applied, max_timers, pop_cases, pop_max;
 } S;
 
@@ -764,7 +766,12 @@ static int timer_register(int reuse_o)
 		memset(objs[o].p, 0xA5, sizeof(struct iv_timer));
 	}
 	t = objs[o].p;
-	IV_TIMER_INIT(t);
+	/* a timer that was unregistered, or whose handler has been entered, may be registered again as it is: half of the re-uses skip the INIT */
+	if (reuse_o < 0 || !objs[o].inited || rng_pct(&R, 50))
+		IV_TIMER_INIT(t);
+	else
+		S.timer_rereg_without_init++;
+	objs[o].inited = 1;
 	if (pop_mode)
 		pop_expiry(&t->expires);
 	else
@@ -1188,8 +1195,22 @@ static void do_one_action(void)
 		break;
 	case A_TIMER_UNREG:
 		o = pick_obj(K_TIMER, 1);
-		if (o >= 0)
+		if (o < 0)
+			break;
+		if (rng_pct(&R, 35)) {
+			/* cancel it (it may have expired in this very round and be waiting for its turn), look at it, and arm it again */
+			obj_unreg(o, 0);
+			if (objs[o].p != NULL && iv_timer_registered((struct iv_timer *)objs[o].p)) {
+				mon_viol("C05", "registered-after-unregister", "timer", "iv_timer_registered() is true for timer #%d right after iv_timer_unregister() returned", o);
+				mon_viol("C04", "registered-after-unregister", "timer", "iv_timer_registered() is true for timer #%d right after iv_timer_unregister() returned", o);
+			}
+			if (objs[o].p != NULL && rng_pct(&R, 70))
+				timer_register(o);
+			else
+				obj_free(o);
+		} else {
 			obj_unreg(o, 1);
+		}
 		break;
 	case A_TASK_REG:
 		task_register(-1);
@@ -1820,6 +1841,10 @@ void hk_wait_enter(struct vt_wait *w)
 			mon_viol("C05", "oversleep", g_method,
 				 "the wait deadline %lld ignores the earliest registered expiry %lld: another timer decides when this one fires",
 				 (long long)w->deadline, (long long)E);
+			if (task_poll_run > 0)
+				mon_viol("C06", "timer-not-serviced-after-task-burst", g_method,
+					 "after %d consecutive non-blocking polls made because tasks were pending, the loop blocks until %lld although a timer is due at %lld (now %lld): the tasks kept the timer from being serviced",
+					 task_poll_run, (long long)w->deadline, (long long)E, (long long)V);
 		}
 		if (w->timeout_ns < 0) {
 			if (!tfd_engaged) { tfd_engaged = 1; S.tfd_engaged_cases++; }
@@ -1834,6 +1859,11 @@ void hk_wait_enter(struct vt_wait *w)
 			 ntasks, (long long)w->deadline, (long long)V);
 	}
 	last_wait_timeout_zero = (w->timeout_ns == 0);
+	/* length of the current run of non-blocking polls that were made with tasks pending */
+	if (w->timeout_ns == 0 && ntasks > 0)
+		task_poll_run++;
+	else if (w->timeout_ns != 0)
+		task_poll_run = 0;
 }
 
 void hk_wait_block(struct vt_wait *w);
@@ -2002,7 +2032,8 @@ static unsigned swarm_mask(void)
 	else if (!strcmp(g_focus, "C04") || !strcmp(g_focus, "C05"))
 		m |= (1u << A_TIMER_REG) | (1u << A_TIMER_UNREG) | (1u << A_STIM) | (1u << A_CH_WRITE) | (1u << A_FD_REG) | (1u << A_TRAIN) | (1u << A_TASKBURN);
 	else if (!strcmp(g_focus, "C06"))
-		m |= (1u << A_TASK_REG) | (1u << A_TASK_UNREG) | (1u << A_FD_REG) | (1u << A_TIMER_REG);
+		m |= (1u << A_TASKBURN) | (1u << A_TRAIN) | (1u << A_CH_WRITE) |
+		     (1u << A_TASK_REG) | (1u << A_TASK_UNREG) | (1u << A_FD_REG) | (1u << A_TIMER_REG);
 	else if (!strcmp(g_focus, "C07"))
 		m |= (1u << A_QUIT) | (1u << A_FD_REGBAD) | (1u << A_FD_UNREG) | (1u << A_EV_REG) | (1u << A_EV_UNREG);
 	return m;
@@ -2015,6 +2046,7 @@ static void run_case(long id)
 
 	case_inj0 = inj0;
 
+	task_poll_run = 0;
 	mon_case_id = id;
 	mon_viol_case = 0;
 	mon_watchdog(pop_big ? 300 : 60);
@@ -2270,7 +2302,7 @@ int main(int argc, char **argv)
 		   "fd_entries_checked=%llu wait_entries_checked=%llu timer_entries_checked=%llu task_entries_checked=%llu "
 		   "unreg_of_due=%llu handler_changes=%llu reinstall_while_ready=%llu tfd_engaged_cases=%llu multi_timer_iters=%llu "
 		   "failed_reg=%llu quits=%llu reenters=%llu deadline_checks=%llu rk_nonempty=%llu b_obligations=%llu eintr_seen=%llu "
-		   "sig_raised=%llu ev_posts=%llu raw_posts=%llu actions=%llu frees_in_handler=%llu struct_reuse=%llu hyg_checks=%llu "
+		   "sig_raised=%llu ev_posts=%llu raw_posts=%llu actions=%llu frees_in_handler=%llu struct_reuse=%llu timer_rereg_without_init=%llu hyg_checks=%llu "
 		   "stim_applied=%llu pop_cases=%llu pop_max=%llu max_timers=%llu quiescences=%llu time_advances=%llu timerfd_fires=%llu injected=%llu successful_calls_leaving_stale_errno=%llu violations=%d\n",
 		   g_method, (unsigned long long)S.cases, (unsigned long long)S.waits,
 		   (unsigned long long)S.cb[K_FD], (unsigned long long)S.cb[K_TIMER], (unsigned long long)S.cb[K_TASK],
@@ -2282,7 +2314,7 @@ int main(int argc, char **argv)
 		   (unsigned long long)S.quits, (unsigned long long)S.reenters, (unsigned long long)S.deadline_checks,
 		   (unsigned long long)S.rk_nonempty, (unsigned long long)S.b_obligations, (unsigned long long)S.eintr_seen,
 		   (unsigned long long)S.sig_raised, (unsigned long long)S.ev_posts, (unsigned long long)S.raw_posts,
-		   (unsigned long long)S.actions, (unsigned long long)S.frees_in_handler, (unsigned long long)S.struct_reuse,
+		   (unsigned long long)S.actions, (unsigned long long)S.frees_in_handler, (unsigned long long)S.struct_reuse, (unsigned long long)S.timer_rereg_without_init,
 		   (unsigned long long)S.hyg_checks, (unsigned long long)S.stim_applied,
 		   (unsigned long long)S.pop_cases, (unsigned long long)S.pop_max, (unsigned long long)S.max_timers,
 		   (unsigned long long)vt_stats.quiescences, (unsigned long long)vt_stats.time_advances,
